@@ -1,5 +1,8 @@
 import StepupModel.K.Scheduler
 import StepupModel.Lemmas.StableInst
+import StepupModel.Lemmas.Ownership
+import StepupModel.Lemmas.OwnershipProducts
+import StepupModel.Lemmas.OwnershipWitness
 /-!
 # C08  Every path has one owner and conflicts are rejected in either order
 
@@ -168,5 +171,61 @@ theorem one_declaration_per_path_after_every_history (h : List (KConfig × Req))
     (h1 : n1 ∈ (KState.init.run h).nodes) (h2 : n2 ∈ (KState.init.run h).nodes)
     (hk : n1.key = n2.key) : n1 = n2 :=
   inj_of_nodup_map (·.key) _ (keysNodup_reachable h) n1 n2 h1 h2 hk
+
+/-! ## The ownership invariants over whole histories (`Lemmas/Ownership*.lean`) -/
+
+open StepupModel.K.Own in
+/-- **Every attached file has a role and an existing creator, after every history** (no side
+condition). -/
+theorem attached_files_are_owned_after_every_history (h : List (KConfig × Req)) :
+    FilesOwned (KState.init.run h) :=
+  filesOwned_after_every_history h
+
+open StepupModel.K.Own in
+/-- **Static trees never nest and own every attached file beneath them, after every history** whose
+requests satisfy `ReqOKO`: a `define` that takes the full-recycle short cut must bring back a product
+subtree that is consistent with what was declared in the meantime (`RecycleClean`; implied by "the
+recycled step brings back no tree and no file under an attached tree": `recycleClean_of_simple`), and
+three clauses about declarations made in the name of a tree, which only the model can express.  The
+other 20 request kinds (and the partial-recycle branch) need nothing. -/
+theorem static_trees_exclusive_after_every_history_partial (h : List (KConfig × Req)) (hg : HistOKO KState.init h) :
+    TreesDisjoint (KState.init.run h) ∧ TreeOwnsBeneath (KState.init.run h) :=
+  ⟨treesDisjoint_after_every_history h hg, treeOwnsBeneath_after_every_history h hg⟩
+
+open StepupModel.K.Own in
+/-- The side condition on recycling is necessary, and the unguarded statement is false of model and
+code alike (the known finding F21): three kernel-checked histories made of director requests only in
+which the last `define` recycles a step and afterwards a file under an attached tree is owned by a
+step, two attached trees nest, respectively an output of a recycled step lies under a tree registered
+in the meantime.  Each replays on the real code (`harness/witness/ownership_*.txt`) with the same answers
+and the implementation-side oracle reports the violation after the last request; the guard refuses
+exactly that request, and does not refuse recycling as such (`guard_accepts_clean_recycle`). -/
+theorem static_trees_exclusive_negation :
+    (TreesDisjoint wState1 ∧ TreeOwnsBeneath wState1 ∧ ¬ ReqOKO wState1 (.define wPlan wDecl) ∧
+      ∃ s', wState1.exec wCfg (.define wPlan wDecl) = .ok s' ∧ ¬ TreeOwnsBeneath s'.1) ∧
+    (TreesDisjoint wState2 ∧ TreeOwnsBeneath wState2 ∧ ¬ ReqOKO wState2 (.define wPlan wDecl) ∧
+      ∃ s', wState2.exec wCfg (.define wPlan wDecl) = .ok s' ∧ ¬ TreesDisjoint s'.1) ∧
+    (TreesDisjoint wState3 ∧ TreeOwnsBeneath wState3 ∧ ¬ ReqOKO wState3 (.define wPlan wDecl) ∧
+      ∃ s', wState3.exec wCfg (.define wPlan wDecl) = .ok s' ∧ ¬ TreeOwnsBeneath s'.1) ∧
+    RecycleClean wState3a (stepKey "T") :=
+  ⟨⟨recycled_tree_over_file_breaks_O4.1, recycled_tree_over_file_breaks_O4.2.1, guard_refuses_1,
+     recycled_tree_over_file_breaks_O4.2.2⟩,
+   ⟨recycled_tree_nested_breaks_O1.1, recycled_tree_nested_breaks_O1.2.1, guard_refuses_2,
+     recycled_tree_nested_breaks_O1.2.2⟩,
+   ⟨recycled_file_under_tree_breaks_O4.1, recycled_file_under_tree_breaks_O4.2.1, guard_refuses_3,
+     recycled_file_under_tree_breaks_O4.2.2⟩,
+   guard_accepts_clean_recycle⟩
+
+open StepupModel.K.Own in
+/-- **Products belong to steps and have no second producer**: an attached file in a product state is
+created by a step (histories in which `amend` names steps, as the handler resolves it), and every step
+with an edge into it is that creator (under the guard of the I4 development, which this clause is read
+off); dependency edges are never duplicated (unconditional).  Not proved over histories: that the
+edge creator → product exists (evaluated by the oracle on every generated request). -/
+theorem products_are_owned_by_their_only_producer_partial (h : List (KConfig × Req)) (ha : Ever.AmendsSteps h)
+    (hg : SuccOut.HistOKS KState.init h) :
+    ProductByStep (KState.init.run h) ∧ ProducersAreCreator (KState.init.run h) ∧ DepsUnique (KState.init.run h) :=
+  ⟨productByStep_after_every_history h ha, producersAreCreator_after_every_history h hg,
+    depsUnique_after_every_history h⟩
 
 end StepupModel.Props.C08
